@@ -383,16 +383,22 @@ func loopExits(fn *ssa.Function) (headers int, exits []loopExit) {
 
 // G4: collection loops visit every element (no break / early success return).
 func ruleNoEarlyExit(c *Ctx, rule string, fnNames ...string) {
-	L := c.L
 	for _, name := range fnNames {
 		fn := genFn(c, rule, name)
 		if fn == nil {
 			continue
 		}
+		ruleNoEarlyExitFn(c, rule, fn)
+	}
+}
+
+func ruleNoEarlyExitFn(c *Ctx, rule string, fn *ssa.Function) {
+	L := c.L
+	{
 		hs, exits := loopExits(fn)
 		if hs == 0 {
 			c.undecided(rule, fnName(fn)+":loops", "no range loop found (the statement list is built differently)")
-			continue
+			return
 		}
 		bad := []string{}
 		for _, e := range exits {
@@ -802,7 +808,7 @@ func rulePoolPredicate(c *Ctx, rule string) {
 				"a pool becomes a goroutine exactly when its first provider is Async (the test findOptimalPool and the wait computation assume)", term)
 		case strings.HasSuffix(term, ", nil)") && (strings.HasPrefix(term, "bin!=(") || strings.HasPrefix(term, "bin==(")):
 			// error / nil checks are not scheduling decisions
-		case (strings.Contains(term, genPkg+".") || strings.Contains(term, "closure:")) && decidesChainCreation(iff):
+		case (strings.Contains(term, genPkg+".") || strings.Contains(term, "closure:")) && condRootedAtCall(iff.Cond) && decidesChainCreation(iff):
 			// a call-based predicate that (without the IsAsync test in between) selects between creating and not creating a chain
 			n++
 			c.fail(rule, fnName(fn)+":pool-kind-predicate", pos, "buildStmts classifies or schedules a pool through a predicate other than its first provider's IsAsync flag", term)
@@ -933,6 +939,26 @@ func rulePoolsProcessed(c *Ctx, rule string) {
 						}
 					}
 				case *ssa.Call:
+					// a named helper / method that receives the pool and marks its elements
+					if h := x.Common().StaticCallee(); h != nil && len(h.Blocks) > 0 && h.Pkg == fn.Pkg && instrDominates(cs.instr, x) {
+						for i, a := range x.Common().Args {
+							if i >= len(h.Params) {
+								continue
+							}
+							s := newSym(L, map[string]bool{})
+							same := false
+							for _, at := range s.eval(a) {
+								for _, w := range poolTerms {
+									if at == w {
+										same = true
+									}
+								}
+							}
+							if same && marks(h, h.Params[i]) {
+								found = true
+							}
+						}
+					}
 					if mc, ok := resolve(x.Common().Value).(*ssa.MakeClosure); ok && instrDominates(cs.instr, x) {
 						cl := mc.Fn.(*ssa.Function)
 						if len(cl.Params) == 1 && len(x.Common().Args) == 1 {
@@ -1032,4 +1058,44 @@ func decidesChainCreation(iff *ssa.If) bool {
 	_ = fn
 	t, f := reach(iff.Block().Succs[0]), reach(iff.Block().Succs[1])
 	return t != f
+}
+
+// condRootedAtCall: the branch condition is (a negation / comparison of) the result of a call - as opposed to a load of a
+// field, map or slice element whose container happens to come from a constructor call.
+func condRootedAtCall(v ssa.Value) bool {
+	for i := 0; i < 6; i++ {
+		switch x := v.(type) {
+		case *ssa.Call:
+			_, isB := x.Common().Value.(*ssa.Builtin)
+			return !isB
+		case *ssa.UnOp:
+			if x.Op == token.NOT {
+				v = x.X
+				continue
+			}
+			return false
+		case *ssa.BinOp:
+			if _, ok := x.X.(*ssa.Call); ok {
+				v = x.X
+				continue
+			}
+			if _, ok := x.Y.(*ssa.Call); ok {
+				v = x.Y
+				continue
+			}
+			return false
+		case *ssa.Phi:
+			for _, e := range x.Edges {
+				if condRootedAtCall(e) {
+					return true
+				}
+			}
+			return false
+		case *ssa.Extract:
+			v = x.Tuple
+			continue
+		}
+		return false
+	}
+	return false
 }
